@@ -1382,7 +1382,9 @@ package apd
 //@   assigns d
 //@   ensures [invkeep] old(inv(d)) ==> inv(d)
 //@   loop 1 invariant closed(ed.Flags) && ed.Ctx == nc && nc != nil && inv(z) && inv(ax) && old(inv(d)) == inv(d)
+//@   loop 1 errexit ed
 //@   loop 2 invariant closed(ed.Flags) && ed.Ctx == nc && nc != nil && inv(z) && inv(ax) && old(inv(d)) == inv(d)
+//@   loop 2 errexit ed
 //@   loop 3 invariant closed(ed.Flags) && ed.Ctx == nc && nc != nil && inv(z) && inv(ax) && inv(z0) && old(inv(d)) == inv(d)
 //@   loop 3 decreases -exp8
 //@   loop 4 invariant closed(ed.Flags) && ed.Ctx == nc && nc != nil && inv(z) && inv(ax) && inv(z0) && old(inv(d)) == inv(d)
